@@ -11,10 +11,12 @@ MAX_PATHS = 60000
 ENCODED = ['Fxp.__init__', 'Fxp._init_size', 'Fxp.set_best_sizes', 'Fxp.resize', 'Fxp.set_val', 'Fxp._format_inupt_val', 'Fxp._round',
            'Fxp._overflow_action', 'utils.clip']
 ASSUMPTIONS = [
-    'inputs are dyadic rationals v = k / 2^f0 (float carrier; Python int carrier for f0 = 0) with f0 <= 4 (quick) / 8 (thorough) and |k| < 2^12 / 2^20 '
-    '(2^14 for f0 in 5..6, 2^11 for f0 in 7..8); '
-    'two-cell arrays with f0 <= 2 and |k| < 2^8.  The fraction search of the real code forks once per fractional bit pattern, so larger f0 is out of reach '
-    '(the property asks f <= 20); the integer part is fully symbolic',
+    'inputs are dyadic rationals v = k / 2^f0 (float carrier; Python int carrier for f0 = 0).  Quick: f0 <= 4 with |k| < 2^12, and f0 in {9, 14, 20} with '
+    '|k| < 2^(f0+6); thorough: every f0 in 0..20 with |k| < 2^40 (the whole domain the property states) when no size is given, |k| < 2^(N-3) with n_word = N '
+    'given, |k| < 2^min(40, f0+12) with n_frac given; two-cell arrays with f0 <= 2 (quick) / f0 in {0..3, 8, 20} (thorough) and |k| < 2^8 .. 2^10',
+    'the statement `if r_i >= 0.0: r = r_i` of the fraction search is if-converted by the loader (sx/loader.py, _IfConvRewriter: a conditional assignment '
+    'of a bare name becomes an if-then-else term when both sides of the test are feasible), so the search costs one path per trailing-zero count instead '
+    'of one per fractional bit pattern; with SX_NO_IFCONV=1 the statement forks as written',
     'unsigned inference is driven with non-negative values only (a negative value has no exact unsigned representation)',
     'minimality is stated without a search: the inferred fraction length is 0 or the stored code is odd; the integer length is 0 or the code does not fit '
     'the same format with one word bit fewer',
@@ -25,26 +27,37 @@ ASSUMPTIONS = [
 def configs(tier, seed):
     rng = random.Random(seed)
     out = []
-    f0s = (0, 1, 2, 3, 4) if tier == 'quick' else (0, 1, 2, 3, 4, 5, 6, 7, 8)
-    kb = 12 if tier == 'quick' else 20
+    quick = tier == 'quick'
+    f0s = (0, 1, 2, 3, 4, 9, 14, 20) if quick else tuple(range(21))
     for f0 in f0s:
+        deep = f0 > 4
+        kb = (12 if not deep else f0 + 6) if quick else 40
         for signed in (None, True, False):
-            out.append(dict(part='none', signed=signed, f0=f0, kbits=kb if f0 <= 4 else (14 if f0 <= 6 else 11), carrier='float', cells=1))
+            if quick and deep and signed is False and f0 != 20:
+                continue
+            out.append(dict(part='none', signed=signed, f0=f0, kbits=kb, carrier='float', cells=1))
             if f0 == 0:
                 out.append(dict(part='none', signed=signed, f0=0, kbits=kb, carrier='int', cells=1))
-            for N in ((8, 16) if tier == 'quick' else (4, 8, 16, 24, 32)):
-                out.append(dict(part='n_word', signed=signed, f0=f0, kbits=min(kb, N - 3), carrier='float', cells=1, N=N))
-            for Fg in ((0, 2) if tier == 'quick' else (0, 1, 2, 5, 8)):
-                out.append(dict(part='n_frac', signed=signed, f0=f0, kbits=kb if f0 <= 4 else (14 if f0 <= 6 else 11), carrier='float', cells=1, Fg=Fg))
+            if quick:
+                Ns = (8, 16) if not deep else ((24,) if f0 == 20 and signed is not False else ())
+                Fgs = (0, 2) if not deep else (((rng.choice((3, 11, 20)),) if signed is not False else ()))
+            else:
+                Ns = (4, 8, 16, 24, 48)
+                Fgs = (0, 2, 8, 20)
+            for N in Ns:
+                # the value may need up to three integer bits more than the word offers (the fraction is then capped and the value may saturate)
+                out.append(dict(part='n_word', signed=signed, f0=f0, kbits=min(kb, N - 3) if f0 <= 8 else min(40, N + 3), carrier='float', cells=1, N=N))
+            for Fg in Fgs:
+                out.append(dict(part='n_frac', signed=signed, f0=f0, kbits=min(kb, f0 + 12), carrier='float', cells=1, Fg=Fg))
     # the value supplied as a fixed-point object that sits in a format larger than the minimal one (and has a past)
     for f0 in (0, 1, 2, 3):
         for signed in (None, True, False):
             out.append(dict(part='none', signed=signed, f0=f0, kbits=8, carrier='fxp', cells=1))
             out.append(dict(part='n_word', signed=signed, f0=f0, kbits=5, carrier='fxp', cells=1, N=12))
             out.append(dict(part='n_frac', signed=signed, f0=f0, kbits=8, carrier='fxp', cells=1, Fg=rng.choice((0, 2))))
-    for f0 in (0, 1, 2):
+    for f0 in ((0, 1, 2) if quick else (0, 1, 2, 3, 8, 20)):
         for signed in (None, False):
-            out.append(dict(part='none', signed=signed, f0=f0, kbits=8 if tier == 'quick' else 10, carrier='float', cells=2))
+            out.append(dict(part='none', signed=signed, f0=f0, kbits=8 if quick else 10, carrier='float', cells=2))
     for signed in (True, False, None):
         for (ni, other, val) in (('n_word', 12, 3), ('n_frac', 5, 3), ('n_word', 8, 0), ('n_frac', 0, 7)):
             out.append(dict(part='n_int', signed=signed, f0=2, kbits=6, carrier='float', cells=1, n_int=val, other=ni, other_val=other))
@@ -55,7 +68,7 @@ def configs(tier, seed):
 
 
 def cost(cfg):
-    return (1 << cfg.get('f0', 3)) * cfg.get('kbits', 8) * cfg.get('cells', 1) ** 2
+    return (cfg.get('f0', 3) + 2) ** cfg.get('cells', 1) * cfg.get('kbits', 8) ** cfg.get('cells', 1)
 
 
 def inputs(cfg):
@@ -115,6 +128,16 @@ def _fits(code, signed, n_word):
     return SP.AND(T.icmp(code, lo, '>='), T.icmp(code, hi, '<='))
 
 
+def _value_fits_int_bits(v, signed, m):
+    """the exact input value lies in the range an integer part of m bits offers: [-2^m, 2^m) signed, [0, 2^m) unsigned"""
+    d = SP.dy(v)
+    if m < 0:
+        return False
+    up = SP.dy_cmp(d, (1 << m, 0), '<')
+    lo = SP.dy_cmp(d, (-(1 << m), 0), '>=') if signed else SP.dy_cmp(d, (0, 0), '>=')
+    return SP.AND(up, lo)
+
+
 def post(cfg, inp, ob):
     s, n, f = ob['fmt']
     st = ob['status']
@@ -158,7 +181,9 @@ def post(cfg, inp, ob):
         out.append(('integer_length_non_negative', n_int >= 0))
         out.append(('inaccuracy_flag_iff_inexact', SP.IFF(st['inaccuracy'], SP.NOT(exact))))
         # either the exact (minimal) fraction length, or the cap: no integer bit to spare
-        tight = True if n_int == 0 else SP.NOT(fits_smaller)
+        # "the largest fraction length that still leaves room for the integer part": one integer bit fewer would not hold the input values
+        # (stated on the inputs: the truncated code of e.g. -(8 + 2^-18) in s24/19 is -8 * 2^19, which by itself would fit 23 bits)
+        tight = True if n_int == 0 else SP.NOT(SP.AND(*[_value_fits_int_bits(v, s, n_int - 1) for v in vals]))
         out.append(('fraction_length_exact_or_capped_by_integer_part',
                     SP.OR(SP.AND(exact, True if f <= 0 else some_odd), SP.AND(SP.NOT(exact), tight))))
         # stored value is the truncation (default rounding) of the input
